@@ -95,6 +95,29 @@ func unsealCopy(b *frame.Builder, s *state.Session, data []byte) (ok bool, paylo
 	return ok, payload, p
 }
 
+// unsealAfterRejected hands the receiver (fresh replay state) the tampered frame and then, with
+// the state the rejection left behind, the genuine frame: reports whether the genuine one unseals
+// to its payload.  A rejected frame must not have advanced the receiver's replay state.
+func unsealAfterRejected(b *frame.Builder, s *state.Session, tampered, genuine []byte) (tamperedOK, genuineOK bool, payload []byte, panicked bool) {
+	resetReceiver(s)
+	try := func(data []byte) (ok bool, pl []byte) {
+		cp := append([]byte(nil), data...)
+		f, err := b.ParseFrame(cp, nil, 0)
+		if err != nil {
+			return false, nil
+		}
+		if err := f.Unseal(s); err != nil {
+			return false, nil
+		}
+		return true, append([]byte(nil), f.MessageData()...)
+	}
+	panicked, _ = recoverPanic(func() {
+		tamperedOK, _ = try(tampered)
+		genuineOK, payload = try(genuine)
+	})
+	return
+}
+
 func runC02(c *Ctx) error {
 	c.Res.Rule = "frames of all 7 message types x payload sizes (1,2,44,45,200 + tier boundaries to 10000) x switch block sizes (0,1,2,127,254,255) x appendix sizes x builder margins; " +
 		"layout compared byte for byte with the model; every sealed frame: real primitives re-run over the model's ranges, every byte position mutated (one bit quick / every bit thorough for small frames), " +
@@ -375,6 +398,14 @@ func runC02(c *Ctx) error {
 					c.Violate(fmt.Sprintf("changing the %s invalidated a frame", region), "free-"+region, rep)
 				case !free && ok:
 					c.Violate(fmt.Sprintf("frame with a changed %s byte unsealed", region), "tamper-"+region, rep)
+				case !free && (pos < 52 || len(d) <= 400 || c.Rng.IntN(4) == 0):
+					// the rejected frame leaves no trace: the genuine frame, arriving after it, still unseals
+					c.Eval()
+					c.Count("genuine-after-rejected:" + region)
+					tok, gok, gpl, gpan := unsealAfterRejected(builder, sba, md, d)
+					if gpan || tok || !gok || !bytes.Equal(gpl, s.msg) {
+						c.Violate(fmt.Sprintf("after a frame with a changed %s byte was rejected, the genuine frame of the same sender no longer unseals to its payload (the rejected frame changed the receiver's replay state)", region), "rejected-frame-side-effect-"+region, rep)
+					}
 				}
 				muts = append(muts, fmt.Sprintf("(%d,%d)", pos, md[pos]))
 				verd = append(verd, coqBool(ok))
